@@ -15,5 +15,12 @@ func evalIdent(ident *ast.Ident, env *object.Env) object.PanObject {
 		return appendStackTrace(err, ident.Source())
 	}
 
+	// NOTE: error object bound to a name (`_`) is shared among all evaluations.
+	// copy it, otherwise stack traces of previous evaluations are accumulated in it
+	if err, ok := val.(*object.PanErr); ok {
+		copied := *err
+		return &copied
+	}
+
 	return val
 }
